@@ -7,6 +7,8 @@ import (
 	"strings"
 
 	"github.com/alibaba/sentinel-golang/core/base"
+	"github.com/alibaba/sentinel-golang/core/config"
+	"github.com/alibaba/sentinel-golang/core/stat"
 	sbase "github.com/alibaba/sentinel-golang/core/stat/base"
 	"verifharness/internal/vh"
 )
@@ -15,6 +17,7 @@ type Interp struct {
 	clk   *vh.Clock
 	la    *sbase.BucketLeapArray
 	views []*sbase.SlidingWindowMetric
+	nodes []*stat.BaseStatNode
 }
 
 func New() vh.Interp {
@@ -23,7 +26,7 @@ func New() vh.Interp {
 	return &Interp{clk: c}
 }
 
-func (it *Interp) Reset() { it.la = nil; it.views = nil }
+func (it *Interp) Reset() { it.la = nil; it.views = nil; it.nodes = nil }
 
 func ev(s string) base.MetricEvent {
 	switch s {
@@ -47,7 +50,35 @@ func (it *Interp) Step(t []string, op string) string {
 		it.clk.SetMs(vh.U(t[3]))
 		it.la = sbase.NewBucketLeapArray(uint32(vh.U(t[1])), uint32(vh.U(t[2])))
 		it.views = nil
+		it.nodes = nil
+		// BaseStatNode takes its array geometry from the global configuration
+		cfg := config.NewDefaultConfig()
+		cfg.Sentinel.Stat.GlobalStatisticSampleCountTotal = uint32(vh.U(t[1]))
+		cfg.Sentinel.Stat.GlobalStatisticIntervalMsTotal = uint32(vh.U(t[2]))
+		config.ResetGlobalConfig(cfg)
 		return ""
+	case "node":
+		it.nodes = append(it.nodes, stat.NewBaseStatNode(uint32(vh.U(t[1])), uint32(vh.U(t[2]))))
+		return ""
+	case "nread":
+		n := it.nodes[vh.U(t[1])]
+		switch t[2] {
+		case "sum":
+			return fmt.Sprint(n.GetSum(ev(t[3])))
+		case "qps":
+			return vh.FBits(n.GetQPS(ev(t[3])))
+		case "prevqps":
+			return vh.FBits(n.GetPreviousQPS(ev(t[3])))
+		case "maxavg":
+			return vh.FBits(n.GetMaxAvg(ev(t[3])))
+		case "minrt":
+			return fmt.Sprint(int64(n.MinRT()))
+		case "maxconc":
+			return fmt.Sprint(n.MaxConcurrency())
+		case "avgrt":
+			return fmt.Sprint(int64(n.AvgRT()))
+		}
+		panic("bad op " + op)
 	case "view":
 		m, err := sbase.NewSlidingWindowMetric(uint32(vh.U(t[1])), uint32(vh.U(t[2])), it.la)
 		if err != nil {
@@ -68,9 +99,15 @@ func (it *Interp) Step(t []string, op string) string {
 		return ""
 	case "add":
 		it.la.AddCount(ev(t[1]), vh.I(t[2]))
+		for _, n := range it.nodes {
+			n.AddCount(ev(t[1]), vh.I(t[2]))
+		}
 		return ""
 	case "conc":
 		it.la.UpdateConcurrency(int32(vh.I(t[1])))
+		for _, n := range it.nodes {
+			n.UpdateConcurrency(int32(vh.I(t[1])))
+		}
 		return ""
 	case "read":
 		m := it.views[vh.U(t[1])]
